@@ -31,7 +31,7 @@ CloneSigs(r) ==
        \cup (IF Disjoint(r.orig, r.copy) THEN {}
              ELSE {Sg(r.api, "shared-node", r.orig.nodes[i].k, "-") : i \in {i \in 1..Len(r.orig.pids) : r.orig.pids[i] \in ToSet(r.copy.pids)}})
        \cup (IF r.mutate # "ok" \/ Unchanged(r.orig, r.after) THEN {}
-             ELSE LET d == DiffOf(r.orig.nodes, r.after.nodes) IN {Sg(r.api, ChangedCause(d[3]), d[1], d[2])})
+             ELSE LET d == ChangeOf(r.orig, r.after) IN {Sg(r.api, ChangedCause(d[3]), d[1], d[2])})
 
 VisitSigs(op, outcome, below, log, r) ==
   IF outcome = "skip" THEN {}
